@@ -1005,7 +1005,13 @@ class Exec:
         yield p, NORMAL
 
     def st_Global(self, s, p):
-        yield p, NORMAL
+        # writes to module-level state would be bound locally and lost (the model has no mutable module state)
+        raise EngineError(f'global statement ({", ".join(s.names)}) at line {s.lineno}: module-level state is not modelled')
+        yield   # pragma: no cover
+
+    def st_Nonlocal(self, s, p):
+        raise EngineError(f'nonlocal statement at line {s.lineno}')
+        yield   # pragma: no cover
 
     def st_Expr(self, s, p):
         if isinstance(s.value, ast.Constant):
